@@ -19,6 +19,7 @@ import EaselModel.Weights.EngineLemmas
 import EaselModel.Weights.PrefLemmas
 import EaselModel.Weights.ConsLemmas
 import EaselModel.Weights.SampleLemmas
+import EaselModel.Weights.Transfer
 /-! # C16 — sequence weights, identity filtering and clustering follow their definitions
 
   Theorems about the `ℚ` instance of the executable model `EaselModel.Weights` (the `Float` instance of the same
@@ -955,5 +956,39 @@ theorem idFilterAdv_consensus_cascade (abc : Abc) (cfg : WCfg) (deal : Nat → N
         | .bySample => (consBySample abc cfg rows (sampleRows cfg deal rows.length) (alenOf rows)).cols
         | .neither => consByAll abc cfg.rule (rows.map (rowInfo abc cfg.minspan)) (alenOf rows)
        if c.isEmpty then List.range (alenOf rows) else c) := rfl
+
+/-- clade sizes in every mode: the `nin[]` the engine keeps is `esl_tree_SetCladesizes`'s value, the root's clade consists of
+    all n taxa, each exactly once, and `cladesize[0] = n` -/
+theorem linkage_cladesizes_root (L : Link) (n : Nat) (hn : 2 ≤ n) (d : Nat → Nat → ℚ) :
+    (∀ c, (linkTree L n d).size.getD c 0 = (kclades n (linkTree L n d).nodes.reverse).getD c 0) ∧
+    ((leafSets n (linkTree L n d).nodes.reverse).getD (2 * n - 2) []).Perm (List.range n) ∧
+    (kclades n (linkTree L n d).nodes.reverse).getD (2 * n - 2) 0 = n :=
+  linkTree_cladesizes' L n hn d
+
+/-- the documented fragment rule: "a sequence is a fragment if (length from first to last aligned residue) / alen < fragthresh";
+    the code's integer test `span < ceil(fragthresh · alen)` says the same over ℚ (the driver evaluates the ceiling in binary32
+    exactly as the C code does) -/
+theorem fragment_rule_documented (ft : ℚ) (alen : Nat) (span : Int) (h : 0 < alen) :
+    span < ⌈ft * (alen : ℚ)⌉ ↔ (span : ℚ) / (alen : ℚ) < ft := by
+  have hpos : (0 : ℚ) < (alen : ℚ) := by exact_mod_cast h
+  rw [Int.lt_ceil, div_lt_iff₀ hpos]
+
+/-- the text and the digital definition of pairwise identity AGREE: `esl_dst_XPairId` on the image of two sequences under ANY
+    symbol map `φ` that preserves "is a residue" and "same residue" on the symbols `S` they use returns the same
+    (pid, nid, n) as `esl_dst_CPairId` on the originals — over every numeric instance (so also bit for bit in binary64) -/
+theorem pairId_text_digital_agree {α} [WNum α] (m m' : Mode) (φ : UInt8 → UInt8) (S : UInt8 → Prop)
+    (hres : ∀ c, S c → m'.isRes (φ c) = m.isRes c)
+    (hkey : ∀ c c', S c → S c' → m.isRes c = true → m.isRes c' = true → (m'.key (φ c) == m'.key (φ c')) = (m.key c == m.key c'))
+    (a b : Row) (ha : ∀ c ∈ a, S c) (hb : ∀ c ∈ b, S c) :
+    pairId (α := α) m' (a.map φ) (b.map φ) = pairId m a b :=
+  pairId_map m m' φ S hres hkey a b ha hb
+
+/-- the instance "DNA text ↦ eslDNA codes" (A C G T in either case ↦ 0..3, every non-letter ↦ gap) satisfies the hypotheses -/
+theorem pairId_text_digital_agree_dna (a b : Row) (ha : ∀ c ∈ a, dnaOK c) (hb : ∀ c ∈ b, dnaOK c) :
+    pairId (α := ℚ) (Mode.digital Abc.dna) (a.map digitizeDna) (b.map digitizeDna) = pairId Mode.text a b ∧
+    pairId (α := Float) (Mode.digital Abc.dna) (a.map digitizeDna) (b.map digitizeDna) = pairId Mode.text a b :=
+  ⟨pairId_text_eq_digital_dna a b ha hb, pairId_text_eq_digital_dna a b ha hb⟩
+
+example : ∀ c ∈ ([65, 99, 45, 116, 46] : Row), dnaOK c := by decide
 
 end EaselModel.Props.C16
